@@ -1,6 +1,12 @@
+use candid::{CandidType, Deserialize, DecoderConfig};
+#[derive(CandidType, Deserialize, Debug, Clone, PartialEq)]
+pub struct Tree { pub v: u8, pub kids: Vec<Tree> }
 fn main() {
-    for s in ["(\"\\é\")", "(\"\\\u{1F600}x\")", "(\"a\\\n\")", "(\"\\q\")", "(\"\\n\\é\")", "(\"ok\\\\\")"] {
-        let r = candid_parser::parse_idl_args(s);
-        println!("{s:?} -> {:?}", r.map(|a| a.to_string()).map_err(|e| e.to_string()));
+    let hexs = "4449444c026c02767badb1a7b804016d00020000a802ea02a3020c016c016e00850161009d01c20056012b01f802a900cb01090168005102dd02c90071005300";
+    let bytes: Vec<u8> = (0..hexs.len()/2).map(|i| u8::from_str_radix(&hexs[2*i..2*i+2],16).unwrap()).collect();
+    for full in [true,false] {
+        let mut c = DecoderConfig::new(); c.set_decoding_quota(100); c.set_full_error_message(full);
+        let r = candid::decode_one_with_config::<Box<Tree>>(&bytes, &c);
+        match r { Ok(v) => println!("ok {v:?}"), Err(e) => { let s=format!("{e:?}"); println!("full={full} err len {} : {}", s.len(), &s[..s.len().min(1500)]); } }
     }
 }
